@@ -122,7 +122,9 @@ TamperVerdicts(s, w, i) ==
   [flip |-> [j \in 1..Len(w) |-> Verify(s, [w EXCEPT ![j].d = IF @ = "L" THEN "R" ELSE "L"], T(i, 0))],
    alter |-> [j \in 1..Len(w) |-> Verify(s, [w EXCEPT ![j].t = [l |-> None, r |-> None]], T(i, 0))],
    other |-> IF s.n > 1 THEN Verify(s, w, T(IF i + 1 < s.n THEN i + 1 ELSE i - 1, 0)) ELSE FALSE,
-   trunc |-> IF w # <<>> THEN Verify(s, SubSeq(w, 1, Len(w) - 1), T(i, 0)) ELSE FALSE]
+   trunc |-> IF w # <<>> THEN Verify(s, SubSeq(w, 1, Len(w) - 1), T(i, 0)) ELSE FALSE,
+   \* a witness that is longer than the accumulator is high ("newer" than the roots): one more element appended
+   extend |-> Verify(s, Append(w, W("R", T(i, 0))), T(i, 0))]
 Witness(i) == /\ UNCHANGED <<st, disk, last>>
               /\ LET r == WitnessFor(st, disk, i) IN
                  Log([op |-> "wit", i |-> i, w |-> WJ(r.w), ok |-> r.ok, tv |-> TamperVerdicts(st, r.w, i)])
@@ -133,7 +135,8 @@ AddMany(k, kind) == /\ st.n + k <= MaxLen
               /\ LET r == AddK(st, k, kind) IN st' = r.s /\ last' = [has |-> TRUE, w |-> r.w]
                                          /\ Log([op |-> "addn", i |-> st.n, k |-> k, kind |-> kind, w |-> WJ(r.w)])
               /\ UNCHANGED disk
-WitSample(n) == {0, n - 1, n \div 2, (2 * n) \div 3} \cap 0..(n - 1)
+\* sampled item indices, and n itself: an index that is out of range (no witness)
+WitSample(n) == ({0, n - 1, n \div 2, (2 * n) \div 3} \cap 0..(n - 1)) \cup {n}
 CheckAll == /\ UNCHANGED <<st, disk, last>>
             /\ Log([op |-> "all", i |-> 0, w |-> <<>>, wits |-> AllWits(st, disk)])
 Next == \/ \E kind \in Kinds : Can /\ Add(kind)
@@ -163,12 +166,14 @@ AddWitnessVerifies == last.has => Verify(st, last.w, T(st.n - 1, 0))
 \* altered witnesses are rejected
 Flip(ws, j) == [ws EXCEPT ![j].d = IF @ = "L" THEN "R" ELSE "L"]
 Junk == [l |-> None, r |-> None]
+OutOfRange == ~WitnessFor(st, disk, st.n).ok /\ ~WitnessFor(st, disk, -1).ok
 TamperRejected == \A i \in 0..(st.n - 1) :
   LET w == WitnessFor(st, disk, i).w IN
   /\ \A j \in 1..Len(w) : /\ ~Verify(st, Flip(w, j), T(i, 0))
                           /\ ~Verify(st, [w EXCEPT ![j].t = Junk], T(i, 0))
   /\ \A i2 \in 0..(st.n - 1) : i2 # i => ~Verify(st, w, T(i2, 0))
   /\ (w # <<>> => ~Verify(st, SubSeq(w, 1, Len(w) - 1), T(i, 0)))
+  /\ ~Verify(st, Append(w, W("R", T(i, 0))), T(i, 0))
 \* what Recover relies on: everything below a recovered root is in the bucket
 RefsStored == \A r \in st.refs : {x \in NodesUnder(r) : x.h >= 1} \subseteq disk.stored
 \* the persisted record can be recovered at any time and gives the same witnesses as at flush time
